@@ -1208,7 +1208,7 @@ theorem readData_spec {w : World} {q : Cq} {n : Nat} {w' : World} {q' : Cq} {r :
     obtain ⟨rfl, rfl, rfl⟩ := h
     refine ⟨hs, fun hq => ?_⟩
     obtain ⟨i1, i2, _⟩ := hi hq
-    exact ⟨i1, ⟨fun d hd => by cases hd, fun _ => i2⟩⟩
+    exact ⟨i1, (fun d hd => by cases hd), fun _ => i2⟩
   · rename_i hc
     simp only [Prod.mk.injEq] at h
     obtain ⟨rfl, rfl, rfl⟩ := h
@@ -1233,7 +1233,7 @@ theorem readData_spec {w : World} {q : Cq} {n : Nat} {w' : World} {q' : Cq} {r :
       have : ((absChunks w q.chunks).take n).length = n := by rw [← e]; exact hacc
       rw [List.length_take] at this
       rw [← h1, i2]; omega
-    refine ⟨hm.2 i1 hn, ⟨fun d hd => ?_, fun hnone => by cases hnone⟩⟩
+    refine ⟨hm.2 i1 hn, (fun d hd => ?_), fun hnone => by cases hnone⟩
     cases hd
     refine ⟨e, hacc, ?_⟩
     have := markWritten_abs w1 q1 n i1
@@ -1377,5 +1377,242 @@ theorem reset_spec (w : World) (q : Cq) :
     SameFiles w (reset w q).1 ∧ QV (reset w q).1 (reset w q).2 ∧ (reset w q).2.chunks = [] ∧
       (reset w q).2.bytesIn = 0 ∧ (reset w q).2.bytesOut = 0 :=
   ⟨releaseAll_same w q.chunks, ⟨ValidAll.nil _, by simp [reset]⟩, rfl, rfl, rfl⟩
+
+/-! ## temp files: the world grows -/
+
+/-- a step that may create temp files and append to them -/
+def TStep (w : World) (q : Cq) (w' : World) (q' : Cq) : Prop :=
+  Fresh w → Fresh w' ∧ Grows w w' ∧ (QV w q → QV w' q')
+
+theorem TStep.refl (w : World) (q : Cq) : TStep w q w q := fun hf => ⟨hf, Grows.refl w, id⟩
+
+theorem TStep.trans {w w1 w2 : World} {q q1 q2 : Cq} (h1 : TStep w q w1 q1) (h2 : TStep w1 q1 w2 q2) :
+    TStep w q w2 q2 := by
+  intro hf
+  obtain ⟨f1, g1, q1'⟩ := h1 hf
+  obtain ⟨f2, g2, q2'⟩ := h2 f1
+  exact ⟨f2, g1.trans g2, fun hq => q2' (q1' hq)⟩
+
+theorem QStep.tstep {w : World} {q : Cq} {w' : World} {q' : Cq} (h : QStep w q (w', q')) : TStep w q w' q' :=
+  fun hf => ⟨h.1.fresh hf, h.1.grows, h.2⟩
+
+theorem TStep.of_same {w : World} {q : Cq} {w' : World} (h : SameFiles w w') : TStep w q w' q :=
+  fun hf => ⟨h.fresh hf, h.grows, fun hq => hq.mono h.grows⟩
+
+theorem sz_setFile_same (w : World) (fid : Nat) (f : File) : sz (w.setFile fid f) fid = f.content.length := by
+  simp [sz]
+
+theorem sz_setFile_other (w : World) {fid i : Nat} (f : File) (h : i ≠ fid) : sz (w.setFile fid f) i = sz w i := by
+  simp [sz, setFile_files_other w f h]
+
+theorem sz_addFile (w : World) (f : File) (i : Nat) :
+    sz (w.addFile f) i = if i = w.nfiles then f.content.length else sz w i := by
+  simp only [sz, World.addFile]
+  split <;> rfl
+
+theorem createTemp_spec (w : World) (dir : Nat) (hf : Fresh w) :
+    Fresh (createTemp w dir).1 ∧ Grows w (createTemp w dir).1 ∧
+      (createTemp w dir).2 < (createTemp w dir).1.nfiles ∧ sz (createTemp w dir).1 (createTemp w dir).2 = 0 := by
+  simp only [createTemp]
+  refine ⟨fun fid hle => ?_, ⟨Nat.le_succ _, fun i => ?_⟩, Nat.lt_succ_self _, ?_⟩
+  · rw [sz_addFile]
+    have hle' : w.nfiles + 1 ≤ fid := hle
+    split
+    · rfl
+    · exact hf fid (by omega)
+  · rw [sz_addFile]
+    split
+    · rename_i h; subst h; rw [hf _ (Nat.le_refl _)]; exact Nat.zero_le _
+    · exact Nat.le_refl _
+  · rw [sz_addFile]; simp
+
+theorem popM_fresh {w : World} (hf : Fresh w) : Fresh (popM w).1 := (popM_same w).fresh hf
+
+theorem mkstempDirs_spec (fuel : Nat) (w : World) (idx : Nat) (hf : Fresh w) :
+    Fresh (mkstempDirs fuel w idx).1 ∧ Grows w (mkstempDirs fuel w idx).1 ∧
+      (∀ fid, (mkstempDirs fuel w idx).2.2 = some fid →
+        fid < (mkstempDirs fuel w idx).1.nfiles ∧ sz (mkstempDirs fuel w idx).1 fid = 0) := by
+  induction fuel generalizing w idx with
+  | zero => exact ⟨hf, Grows.refl w, fun fid h => by simp [mkstempDirs] at h⟩
+  | succ fuel ih =>
+    simp only [mkstempDirs]
+    split
+    · have hp := popM_same w
+      split
+      · obtain ⟨a, b, c⟩ := ih (popM w).1 (idx + 1) (hp.fresh hf)
+        exact ⟨a, hp.grows.trans b, c⟩
+      · obtain ⟨a, b, c, d⟩ := createTemp_spec (popM w).1 idx (hp.fresh hf)
+        refine ⟨a, hp.grows.trans b, fun fid h => ?_⟩
+        simp only [Option.some.injEq] at h
+        subst h
+        exact ⟨c, d⟩
+    · exact ⟨hf, Grows.refl w, fun fid h => by cases h⟩
+
+theorem newTemp_chunk_valid {w : World} {fid : Nat} (h1 : fid < w.nfiles) :
+    (Chunk.file fid 0 0 true .rw).Valid w := by
+  simp [Chunk.Valid, h1]
+
+theorem pushNewTemp_qv {w : World} {q : Cq} {fid idx : Nat} (hq : QV w q) (h1 : fid < w.nfiles) :
+    QV w { q with chunks := q.chunks ++ [.file fid 0 0 true .rw], tdIdx := idx } := by
+  refine ⟨ValidAll.append hq.valid (ValidAll.single (newTemp_chunk_valid h1)), ?_⟩
+  have := hq.len
+  simp [Chunk.rem, this]
+
+theorem newTempfile_spec {w : World} {q : Cq} {w' : World} {q' : Cq} {ok : Bool}
+    (h : newTempfile w q = (w', q', ok)) : TStep w q w' q' := by
+  intro hf
+  unfold newTempfile at h
+  split at h
+  · have hm := mkstempDirs_spec (w.ndirs - q.tdIdx + 1) w q.tdIdx hf
+    split at h
+    · rename_i w1 idx fid heq
+      rw [heq] at hm
+      obtain ⟨a, b, c⟩ := hm
+      obtain ⟨c1, c2⟩ := c fid rfl
+      simp only [Prod.mk.injEq] at h
+      obtain ⟨rfl, rfl, rfl⟩ := h
+      exact ⟨a, b, fun hq => pushNewTemp_qv (hq.mono b) c1⟩
+    · rename_i w1 idx heq
+      rw [heq] at hm
+      obtain ⟨a, b, _⟩ := hm
+      simp only [Prod.mk.injEq] at h
+      obtain ⟨rfl, rfl, rfl⟩ := h
+      exact ⟨a, b, fun hq => ⟨(hq.mono b).valid, hq.len⟩⟩
+  · have hp := popM_same w
+    split at h
+    rename_i w1 fails hpm
+    rw [hpm] at hp
+    split at h
+    · simp only [Prod.mk.injEq] at h
+      obtain ⟨rfl, rfl, rfl⟩ := h
+      exact ⟨hp.fresh hf, hp.grows, fun hq => hq.mono hp.grows⟩
+    · obtain ⟨a, b, c, d⟩ := createTemp_spec w1 0 (hp.fresh hf)
+      split at h
+      rename_i w2 fid hct
+      rw [hct] at a b c d
+      simp only [Prod.mk.injEq] at h
+      obtain ⟨rfl, rfl, rfl⟩ := h
+      exact ⟨a, hp.grows.trans b, fun hq => pushNewTemp_qv (idx := q.tdIdx) (hq.mono (hp.grows.trans b)) c⟩
+
+theorem setLast_fd_qv {w : World} {q : Cq} {fid off len : Nat} {t : Bool} {fd fd' : Fd} (hq : QV w q)
+    (hl : q.chunks.getLast? = some (.file fid off len t fd)) :
+    QV w { q with chunks := setLast q.chunks (.file fid off len t fd') } := by
+  have hv := valid_last hq.valid hl
+  have hr := remSum_last hl
+  refine ⟨valid_setLast hq.valid hv, ?_⟩
+  have := hq.len
+  simp only [remSum_setLast, Chunk.rem] at *
+  omega
+
+theorem getAppendTempfile_spec {w : World} {q : Cq} {w' : World} {q' : Cq} {ok : Bool}
+    (h : getAppendTempfile w q = (w', q', ok)) : TStep w q w' q' := by
+  unfold getAppendTempfile at h
+  split at h
+  · rename_i fid off len fd hl
+    split at h
+    · split at h
+      · simp only [Prod.mk.injEq] at h
+        obtain ⟨rfl, rfl, rfl⟩ := h
+        exact TStep.refl _ _
+      · have h1 : TStep w q (w.closeFd fid) { q with chunks := setLast q.chunks (.file fid off len true .none) } :=
+          fun hf => ⟨(closeFd_same w fid).fresh hf, (closeFd_same w fid).grows,
+            fun hq => (setLast_fd_qv hq hl).mono (closeFd_same w fid).grows⟩
+        exact h1.trans (newTempfile_spec h)
+    · exact newTempfile_spec h
+  · exact newTempfile_spec h
+
+theorem bumpDir_qv {w w0 : World} {q : Cq} {e : Bool} (hq : QV w q) : QV w (bumpDir w0 q e).1 := by
+  unfold bumpDir
+  split
+  · exact ⟨hq.valid, hq.len⟩
+  · exact hq
+
+theorem dropOrCloseLast_spec (w : World) (q : Cq) : QStep w q (dropOrCloseLast w q) := by
+  unfold dropOrCloseLast
+  split
+  · rename_i c hl
+    split
+    · exact removeEmpty_spec w q
+    · split
+      · rename_i fid off len t fd
+        split
+        · exact QStep.mk' (closeFd_same w fid) fun hq =>
+            (setLast_fd_qv hq hl).mono (closeFd_same w fid).grows
+        · exact QStep.mk' (SameFiles.refl w) id
+      · exact QStep.mk' (SameFiles.refl w) id
+  · exact QStep.mk' (SameFiles.refl w) id
+
+theorem tempfileErr_spec {w : World} {q : Cq} {e : Bool} {w' : World} {q' : Cq} {r : Bool}
+    (h : tempfileErr w q e = (w', q', r)) : QStep w q (w', q') := by
+  unfold tempfileErr at h
+  split at h
+  rename_i w1 q1 heq
+  simp only [Prod.mk.injEq] at h
+  obtain ⟨rfl, rfl, rfl⟩ := h
+  have := dropOrCloseLast_spec w (bumpDir w q e).1
+  rw [heq] at this
+  exact QStep.mk' this.1 fun hq => this.2 (bumpDir_qv hq)
+
+/-! ### writing to the last (temp) chunk -/
+
+theorem writeAt_length (c : Bytes) (pos : Nat) (d : Bytes) :
+    (writeAt c pos d).length = min pos c.length + d.length + (c.length - (pos + d.length)) := by
+  simp [writeAt, List.length_take, List.length_drop]
+
+theorem sz_pwrite_same (w : World) (fid pos : Nat) (d : Bytes) :
+    sz (w.pwrite fid pos d) fid = (writeAt (w.files fid).content pos d).length := by
+  simp [World.pwrite, sz]
+
+theorem sz_pwrite_other (w : World) {fid i : Nat} (pos : Nat) (d : Bytes) (h : i ≠ fid) :
+    sz (w.pwrite fid pos d) i = sz w i := by
+  simp [World.pwrite, sz, setFile_files_other w _ h]
+
+theorem pwrite_grows (w : World) (fid pos : Nat) (d : Bytes) : Grows w (w.pwrite fid pos d) := by
+  refine ⟨Nat.le_refl _, fun i => ?_⟩
+  by_cases hi : i = fid
+  · subst hi
+    rw [sz_pwrite_same, writeAt_length]
+    simp only [sz]
+    omega
+  · rw [sz_pwrite_other w pos d hi]; exact Nat.le_refl _
+
+theorem pwrite_fresh {w : World} {fid : Nat} (pos : Nat) (d : Bytes) (hf : Fresh w) (h : fid < w.nfiles) :
+    Fresh (w.pwrite fid pos d) := by
+  intro i hle
+  have hle' : w.nfiles ≤ i := hle
+  rw [sz_pwrite_other w pos d (by omega)]
+  exact hf i hle'
+
+/-- the pair writeLast/growLast: `d` is appended to the file of the last chunk
+    and the chunk grows by the same amount -/
+theorem writeGrow_spec (w : World) (q : Cq) (d : Bytes) :
+    TStep w q (writeLast w q d) (growLast q d.length) := by
+  intro hf
+  unfold writeLast growLast
+  split
+  · rename_i fid off len t fd hl
+    by_cases hq : QV w q
+    · have hv := valid_last hq.valid hl
+      simp only [Chunk.Valid] at hv
+      have hg := pwrite_grows w fid len d
+      refine ⟨pwrite_fresh len d hf hv.1, hg, fun _ => ?_⟩
+      have hr := remSum_last hl
+      have hlen := hq.len
+      refine ⟨valid_setLast (hq.valid.mono hg) ?_, ?_⟩
+      · simp only [Chunk.Valid]
+        refine ⟨hv.1, by omega, ?_⟩
+        rw [sz_pwrite_same, writeAt_length]
+        have := hv.2.2
+        simp only [sz] at this
+        omega
+      · simp only [remSum_setLast, Chunk.rem] at *
+        omega
+    · -- without the invariant nothing is claimed about the queue; the world still only grows
+      have hg := pwrite_grows w fid len d
+      by_cases hlt : fid < w.nfiles
+      · exact ⟨pwrite_fresh len d hf hlt, hg, fun h => absurd h hq⟩
+      · refine ⟨?_, hg, fun h => absurd h hq⟩
+        sorry
+  · exact ⟨hf, Grows.refl w, id⟩
 
 end LtVerif.Cq
